@@ -378,6 +378,103 @@ func runC09(c *core.Ctx) {
 	})
 	c.Exhaustive(fmt.Sprintf("all %d (signing, crypto) pairs over codes 0..20,255,256,65280,65534,65535 x 0..8,255,256,65280,65534,65535 through %d API paths", len(pairs), len(paths)))
 	c.Job("reused-inputs", c.N(400, 8000), func(i int, r *core.Rand) { c09ReusedInputs(c, r) })
+	// signing keys that do not fit the 128-byte field (ECDSA-P521, RSA-2048/3072/4096) handed to the
+	// identity constructors as key objects: whatever comes back is examined like every other
+	// identity (RSA is prohibited everywhere; an identity too large for the block is a path of its own)
+	bigSig := []int{3, 4, 5, 6}
+	bigCr := []int{0, 4, 5, 6, 7}
+	c.Job("oversize-signing-keys", len(bigSig)*len(bigCr)*c.N(2, 20), func(i int, r *core.Rand) {
+		sg, cr := bigSig[i%len(bigSig)], bigCr[(i/len(bigSig))%len(bigCr)]
+		spkLen, _ := rm.SigPubLen(sg)
+		cpkLen, _ := rm.CryptoLen(cr)
+		kb := r.Bytes(spkLen)
+		kb[0] |= 1
+		spk, err := lib.SigningKeyOf(sg, kb)
+		if err != nil || spk == nil {
+			return
+		}
+		cb := r.Bytes(cpkLen)
+		if cr == 0 {
+			gen.ElgInRange(cb)
+		}
+		pk, err := lib.CryptoKeyOf(cr, cb)
+		if err != nil || pk == nil {
+			return
+		}
+		// the certificate as a caller would build it: key types, then the part of the signing key
+		// that does not fit the block (and, for a caller that does not know better, nothing)
+		excess := spkLen - 128
+		for variant, payloadExtra := range [][]byte{kb[128:], nil, r.Bytes(excess)} {
+			cert, err := lib.BuildCert(rm.KeyCert(sg, cr, payloadExtra))
+			if err != nil || cert == nil {
+				continue
+			}
+			pad := r.Bytes(max(0, 384-128-cpkLen))
+			type ctor struct {
+				site   string
+				router bool
+				fn     func() *keys_and_cert.KeysAndCert
+			}
+			ctors := []ctor{
+				{"router_identity.NewRouterIdentity", true, func() *keys_and_cert.KeysAndCert {
+					if d, err := router_identity.NewRouterIdentity(pk, spk, cert, pad); err == nil && d != nil {
+						return d.KeysAndCert
+					}
+					return nil
+				}},
+				{"router_identity.NewRouterIdentityWithCompressiblePadding", true, func() *keys_and_cert.KeysAndCert {
+					if d, err := router_identity.NewRouterIdentityWithCompressiblePadding(pk, spk, cert); err == nil && d != nil {
+						return d.KeysAndCert
+					}
+					return nil
+				}},
+				{"destination.NewDestination(NewKeysAndCert)", false, func() *keys_and_cert.KeysAndCert {
+					kc, err := key_certificate.KeyCertificateFromCertificate(cert)
+					if err != nil || kc == nil {
+						return nil
+					}
+					kk, err := keys_and_cert.NewKeysAndCert(kc, pk, pad, spk)
+					if err != nil || kk == nil {
+						return nil
+					}
+					if d, err := destination.NewDestination(kk); err == nil && d != nil {
+						return d.KeysAndCert
+					}
+					return nil
+				}},
+			}
+			for _, ct := range ctors {
+				var kac *keys_and_cert.KeysAndCert
+				in := []byte(fmt.Sprint(sg, cr, variant))
+				// these constructors are not parsers: a panic on a key object they do not support is not
+				// judged here, a returned identity is
+				func() {
+					defer func() { _ = recover() }()
+					kac = ct.fn()
+				}()
+				c.Eval(1)
+				c.Nontrivial([]byte("oversize"), in, []byte(ct.site))
+				if kac == nil {
+					c.Bucket("oversize-signing-keys/refused/" + ct.site)
+					continue
+				}
+				c.Bucket("oversize-signing-keys/returned/" + ct.site)
+				ys, yc, ok := typesOf(kac)
+				if !ok {
+					continue
+				}
+				bad := rm.ProhibitedInDestination(ys, yc)
+				what := "Destination"
+				if ct.router {
+					bad, what = rm.ProhibitedInRouterIdentity(ys, yc), "RouterIdentity"
+				}
+				if bad {
+					c.Violate(ct.site, "prohibited-type-yielded", gen.Shape{"sig": ys, "crypto": yc, "class": "signing key larger than the 128-byte field handed over as a key object", "certificate_variant": variant}, in,
+						fmt.Sprintf("%s declaring signing type %d / crypto type %d returned without error", what, ys, yc))
+				}
+			}
+		}
+	})
 	c.Job("lifecycle", c.N(480, 9600), func(i int, r *core.Rand) { c09Lifecycle(c, i, r) })
 	// what a parser hands back TOGETHER WITH the error that refuses a prohibited type: "never returns"
 	// includes the value in the other result position — a complete, usable identity there is returned
@@ -477,6 +574,7 @@ func c09ReusedInputs(c *core.Ctx, r *core.Rand) {
 	}
 	var held []heldT
 	var recvBuf []byte
+	var certVar *certificate.Certificate
 	good := [][2]int{{7, 4}, {7, 0}, {1, 0}, {0, 0}, {2, 4}, {3, 0}}
 	bad := [][2]int{{8, 4}, {7, 5}, {7, 6}, {7, 7}, {11, 4}, {11, 0}, {8, 0}, {4, 0}, {5, 4}, {6, 0}}
 	for step := 0; step < 8; step++ {
@@ -503,6 +601,14 @@ func c09ReusedInputs(c *core.Ctx, r *core.Rand) {
 			}
 		})
 		c.Eval(1)
+		if err == nil && cert != nil && step%3 == 2 {
+			// the caller keeps ONE certificate variable and refills it (same address, new content)
+			if certVar == nil {
+				certVar = new(certificate.Certificate)
+			}
+			*certVar = *cert
+			cert = certVar
+		}
 		if err == nil && cert != nil {
 			pk, e1 := lib.CryptoKeyOf(cr, k.CryptoKey())
 			spk, e2 := lib.SigningKeyOf(s, k.SigningKey())
